@@ -80,9 +80,6 @@ pub fn parse_block(key: &str, bytes: &[u8]) -> Option<RawBlock> {
                             rec[1].as_str()?.to_string(),
                         )),
                         3 => {
-                            if parents.is_empty() {
-                                return None;
-                            }
                             changes.push((
                                 rec[0].as_str()?.to_string(),
                                 Some(rec[1].as_str()?.to_string()),
@@ -91,6 +88,31 @@ pub fn parse_block(key: &str, bytes: &[u8]) -> Option<RawBlock> {
                         }
                         _ => return None,
                     }
+                }
+            }
+        }
+    }
+    if parents.is_empty() {
+        // origin block: an update record is only acceptable on top of a revision introduced
+        // by the same block
+        for (uuid, prev, _) in &changes {
+            if let Some(prev) = prev {
+                let ok = changes.iter().any(|(u, p2, d2)| {
+                    u == uuid && {
+                        let idx = match p2 {
+                            None => 1,
+                            Some(p) => p.split_once('-').and_then(|(i, _)| i.parse::<u64>().ok()).unwrap_or(0) + 1,
+                        };
+                        let tail = p2.as_ref().map(|p| sha_hex(p.as_bytes())[..7].to_string());
+                        let s = match tail {
+                            Some(t) if idx > 1 => format!("{}-{}_{}", idx, d2, t),
+                            _ => format!("{}-{}", idx, d2),
+                        };
+                        &s == prev
+                    }
+                });
+                if !ok {
+                    return None;
                 }
             }
         }
